@@ -10,7 +10,7 @@ RULE = (
     "X1 with the fault plan as the deviation: an instrumented top-level plan logs what each of its yields receives; corpus bodies "
     "(count, scan, grid, nested run keys, fly, cleanup wrapper, bare, two motors) in two policies - propagate (the plan does not "
     "handle the error) and swallow (handle-and-continue) - x every device operation made to raise, or to return a status that fails "
-    "immediately or 0.25 s later; one raising operation x one pause->resume at every later loop position (the error must still reach the plan after the rewind); a status that fails only after its call has ended while the next call is running (that call must not see it); thorough: two faults, async devices. Oracle: a raising operation => that very exception object is "
+    "immediately or 0.25 s later; one raising operation x one pause->resume at every later loop position (the error must still reach the plan after the rewind); one status that fails 0.25 s later x one pause->resume at every later loop position, judged when its message is not re-executed by the replay (the failure may arrive while the engine is paused and must still reach the plan by the wait on its group); a status that fails only after its call has ended while the next call is running (that call must not see it); thorough: two faults, async devices. Oracle: a raising operation => that very exception object is "
     "logged at the yield of the message that invoked it; a failing status => a FailedStatus whose __cause__ is the status' exception is "
     "logged at a yield k <= j <= (the wait on its group), each error once; propagate => the call raises that object; swallow => the "
     "remaining message trace equals the fault-free one; non-trivial = the fault was delivered to the plan"
@@ -23,10 +23,12 @@ _q = ["count2", "scan2", "grid22s", "nested", "fly1", "cleanup", "bare", "twomot
 SPECS = {
     "quick": [spec(k, [], bound=1, faults=F, ly=1, oe=oe) for k in _q + ["watch"] for oe in ("p", "s")]
     + [spec(k, PAUSE1, bound=2, faults=("raise",), ly=1, oe=oe) for k in ("bare", "count2") for oe in ("p", "s")]
+    + [spec(k, PAUSE1, bound=2, faults=("fail_late",), ly=1, oe=oe) for k in ("bare", "twomotors") for oe in ("p", "s")]  # the status fails while the engine is paused
     + [spec("latefail", [], bound=1, faults=F, a=a) for a in (0, 1)],  # a status that fails after its call has ended
     "thorough": [spec(k, [], bound=1, faults=F, ly=1, oe=oe, a=a) for k in _q + ["flyonly", "relscan2", "listscan", "tworuns"] for oe in ("p", "s") for a in (0, 1)]
     + [spec(k, [], bound=2, faults=F, ly=1, oe="s") for k in ("scan2", "bare", "count2")]
-    + [spec(k, PAUSE1, bound=2, faults=("raise",), ly=1, oe=oe, a=a) for k in ("bare", "count2", "scan2", "nested", "cleanup") for oe in ("p", "s") for a in (0, 1)],
+    + [spec(k, PAUSE1, bound=2, faults=("raise",), ly=1, oe=oe, a=a) for k in ("bare", "count2", "scan2", "nested", "cleanup") for oe in ("p", "s") for a in (0, 1)]
+    + [spec(k, PAUSE1, bound=2, faults=("fail", "fail_late"), ly=1, oe=oe, a=a) for k in ("bare", "twomotors", "count2", "scan2") for oe in ("p", "s") for a in (0, 1)],
 }
 
 
@@ -53,7 +55,7 @@ def oracle(scn, obs, ref, schedule):
     if paused:
         # fault + pause -> resume: judged only for a raising operation that happens BEFORE the pause takes effect, in a
         # resumable place (an operation re-executed by a replay belongs to the replay, not to a yield of the plan)
-        if any(ev[0] != "pause" for _p, ev in schedule["injections"]) or set(faults.values()) != {"raise"} or len(faults) != 1:
+        if any(ev[0] != "pause" for _p, ev in schedule["injections"]) or not (set(faults.values()) <= {"raise", "fail", "fail_late"}) or len(faults) != 1:
             return out
         if any(r != "yes" for _k, _i, r in engine.interruptions(obs)):
             return out
@@ -88,6 +90,8 @@ def oracle(scn, obs, ref, schedule):
     in_cleanup = any(t[0] == "plan_end" for t in tl[:idx_dev])
     if in_cleanup or m.command != op or getattr(m.obj, "name", None) != dev and dev not in [getattr(a, "name", None) for a in m.args]:
         return out
+    if paused and kind != "raise" and sum(1 for mm in obs.msgs if mm is m) != 1:
+        return out  # the message was re-executed by the replay: its first status no longer belongs to a yield of the plan
     k = next((kk for kk, mm, _kind, _v in ylog if mm is m), None)
     if k is None:
         k = next((kk for kk, mm, kd, _v in ylog if mm is m or kd == "closed"), None)
